@@ -281,6 +281,35 @@ fn mirror_head(mut r: asp::Rule, k: u8) -> asp::Rule {
         }
         return r;
     }
+    if (8..10).contains(&k) {
+        // 1 rule in 12: the arguments of a body atom of arity >= 2 are the members of one family of
+        // fresh-variable names in order (Z, Z1, Z2 / V, V1, V2): the names the translations bump past
+        let family = if k == 8 { "Z" } else { "V" };
+        for f in r.body.formulas.iter_mut() {
+            if let asp::AtomicFormula::Literal(l) = f {
+                if l.atom.terms.len() >= 2 {
+                    for (i, t) in l.atom.terms.iter_mut().enumerate() {
+                        let name = if i == 0 { family.to_string() } else { format!("{family}{i}") };
+                        *t = asp::Term::Variable(asp::Variable(name));
+                    }
+                    l.sign = asp::Sign::NoSign;
+                    break;
+                }
+            }
+        }
+        return r;
+    }
+    if (6..8).contains(&k) {
+        // 1 rule in 12: a head with two syntactically identical arguments (`p(1..2, 1..2)`, `p(X+1, X+1)`)
+        if let asp::Head::Basic(a) | asp::Head::Choice(a) = &mut r.head {
+            if a.terms.len() >= 2 {
+                let n = a.terms.len();
+                let (from, to) = if k == 6 { (0, n - 1) } else { (n - 1, 0) };
+                a.terms[to] = a.terms[from].clone();
+            }
+        }
+        return r;
+    }
     if k >= 3 {
         return r;
     }
